@@ -55,6 +55,8 @@ type Case struct {
 	Output    string      `json:"output"`               // localfs | gnutar | mtree
 	CLI       bool        `json:"cli,omitempty"`        // variant runs the desync binary ($VERIF_DESYNC_BIN)
 	DestFresh bool        `json:"dest_fresh,omitempty"` // localfs: the destination directory does not exist yet
+	NoOwner   bool        `json:"no_owner,omitempty"`   // localfs: LocalFSOptions.NoSameOwner / --no-same-owner (owner and xattrs are then not compared)
+	NoPerm    bool        `json:"no_perm,omitempty"`    // localfs: LocalFSOptions.NoSamePermissions / --no-same-permissions (mode bits are then not compared)
 }
 
 // ------------------------------------------------------------------ generator
@@ -100,6 +102,12 @@ func genCase(t *rapid.T) Case {
 		c.N = rapid.SampledFrom([]int{1, 1, 2, 4, 8}).Draw(t, "n")
 	}
 	c.DestFresh = c.Output == "localfs" && rapid.IntRange(0, 3).Draw(t, "destfresh") == 0
+	// the two unpack options only say what is NOT restored (owner + xattrs, permission bits): everything
+	// else the statement lists still has to come back
+	if c.Output == "localfs" {
+		c.NoOwner = rapid.IntRange(0, 3).Draw(t, "noowner") == 0
+		c.NoPerm = rapid.IntRange(0, 3).Draw(t, "noperm") == 0
+	}
 
 	o := fstree.GenOptions{
 		MaxDepth:  4,
@@ -183,7 +191,7 @@ type writer struct {
 	tw   *desync.TarWriter
 }
 
-func newWriter(kind, dest string, fresh bool) (*writer, error) {
+func newWriter(kind, dest string, fresh bool, opts desync.LocalFSOptions) (*writer, error) {
 	w := &writer{kind: kind, dest: dest, buf: &bytes.Buffer{}}
 	switch kind {
 	case "gnutar":
@@ -201,9 +209,9 @@ func newWriter(kind, dest string, fresh bool) (*writer, error) {
 				return nil, err
 			}
 		}
-		// zero options: owner, permissions and xattrs of the archive are applied (NoSameOwner would
-		// keep the caller's uid/gid and drop the xattrs, NoSamePermissions would keep the umask default)
-		w.fs = desync.NewLocalFS(dest, desync.LocalFSOptions{})
+		// zero options: owner, permissions and xattrs of the archive are applied (NoSameOwner
+		// keeps the caller's uid/gid and drops the xattrs, NoSamePermissions keeps the umask default)
+		w.fs = desync.NewLocalFS(dest, opts)
 	}
 	return w, nil
 }
@@ -494,6 +502,12 @@ func variantCLI(c Case, dir, src string, tarStream []byte, refCatar []byte, srcT
 				panic(err)
 			}
 		}
+		if c.NoOwner {
+			uargs = append(uargs, "--no-same-owner")
+		}
+		if c.NoPerm {
+			uargs = append(uargs, "--no-same-permissions")
+		}
 		uargs = append(uargs, arch, dest)
 	}
 	notes.ran = append(notes.ran, map[bool]string{false: "untar", true: "mtree"}[c.Output == "mtree"]+suffix)
@@ -542,6 +556,9 @@ func normalise(c Case) Case {
 	if c.Input == "tar" {
 		c.Output = "localfs"
 	}
+	if c.Output != "localfs" {
+		c.NoOwner, c.NoPerm = false, false
+	}
 	if c.N < 1 {
 		c.N = 1
 	}
@@ -585,9 +602,9 @@ func label(c Case) string {
 }
 
 // compare lists the differences between what a pipeline produced and the tree it had to reproduce.
-func compare(want *fstree.Node, r *result, output string, skipRootMeta, sha256d bool) []fstree.Difference {
+func compare(want *fstree.Node, r *result, output string, skipRootMeta, sha256d bool, skip map[string]bool) []fstree.Difference {
 	if output == "localfs" {
-		return fstree.Diff(want, r.tree, fstree.DiffOptions{SkipRootMeta: skipRootMeta, SkipEpochMtime: true, Max: 1 << 20})
+		return fstree.Diff(want, r.tree, fstree.DiffOptions{SkipRootMeta: skipRootMeta, SkipEpochMtime: true, Max: 1 << 20, Skip: skip})
 	}
 	return compareFlat(want, r.recs, output, skipRootMeta, sha256d)
 }
@@ -650,7 +667,7 @@ func run(c Case) (o hx.Outcome) {
 		o.Desc.(map[string]any)["sizes"] = fmt.Sprintf("%d:%d:%d", c.Sizes.Min, c.Sizes.Avg, c.Sizes.Max)
 		o.Desc.(map[string]any)["store"] = c.Store
 	}
-	o.Key = fmt.Sprintf("%s|%s|%s|%d|%d|%d|%d|%v|%d|%d", pipe, c.Output, c.Digest, sh.Nodes, sh.Dirs, sh.MaxFan, sh.Depth, sh.Kinds, sh.Xattrs, sh.Bytes)
+	o.Key = fmt.Sprintf("%s|%s%v%v|%s|%d|%d|%d|%d|%v|%d|%d", pipe, c.Output, c.NoOwner, c.NoPerm, c.Digest, sh.Nodes, sh.Dirs, sh.MaxFan, sh.Depth, sh.Kinds, sh.Xattrs, sh.Bytes)
 	o.Nontrivial = sh.DirsWith2 >= 1 && (sh.Kinds[fstree.Symlink] > 0 || sh.Kinds[fstree.Chr]+sh.Kinds[fstree.Blk] > 0 || sh.Xattrs > 0 || sh.SetID > 0 || sh.NonRootOwner > 0)
 	o.Class("pipeline:"+pipe, "output:"+c.Output, "digest:"+c.Digest)
 	if sha256d {
@@ -721,6 +738,18 @@ func run(c Case) (o hx.Outcome) {
 	if c.DestFresh {
 		o.Class("dest:created-by-untar")
 	}
+	optSkip := map[string]bool{}
+	if c.NoOwner {
+		o.Class("untar:no-same-owner")
+		if sh.Kinds[fstree.Symlink] > 0 {
+			o.Class("untar:no-same-owner:symlink")
+		}
+		optSkip["uid"], optSkip["gid"], optSkip["xattrs"] = true, true, true
+	}
+	if c.NoPerm {
+		o.Class("untar:no-same-permissions")
+		optSkip["mode-perm"], optSkip["mode-setid"] = true, true
+	}
 
 	rp := &reporter{o: &o, count: map[string]int{}, first: map[string]string{}}
 	defer rp.flush()
@@ -762,7 +791,7 @@ func run(c Case) (o hx.Outcome) {
 	var refErr *pipeErr
 	var refRaw []byte
 	{
-		w, werr := newWriter(c.Output, filepath.Join(dir, "dest-ref"), c.DestFresh)
+		w, werr := newWriter(c.Output, filepath.Join(dir, "dest-ref"), c.DestFresh, desync.LocalFSOptions{NoSameOwner: c.NoOwner, NoSamePermissions: c.NoPerm})
 		if werr != nil {
 			panic(fmt.Sprintf("harness: %v", werr))
 		}
@@ -772,7 +801,7 @@ func run(c Case) (o hx.Outcome) {
 			reportErr("catar", perr, nil)
 		} else {
 			refRaw = r.raw
-			ds := compare(S, r, c.Output, false, sha256d)
+			ds := compare(S, r, c.Output, false, sha256d, optSkip)
 			for _, d := range ds {
 				refKeys[diffKey(d)] = true
 			}
@@ -821,7 +850,7 @@ func run(c Case) (o hx.Outcome) {
 		}
 		r, perr = variantCLI(c, dir, src, stream, vcatar, S, &notes)
 	} else {
-		w, werr := newWriter(c.Output, filepath.Join(dir, "dest-var"), c.DestFresh)
+		w, werr := newWriter(c.Output, filepath.Join(dir, "dest-var"), c.DestFresh, desync.LocalFSOptions{NoSameOwner: c.NoOwner, NoSamePermissions: c.NoPerm})
 		if werr != nil {
 			panic(fmt.Sprintf("harness: %v", werr))
 		}
@@ -863,7 +892,7 @@ func run(c Case) (o hx.Outcome) {
 		}
 		return o
 	}
-	report(pipe, compare(want, r, c.Output, skipRoot, sha256d), refKeys)
+	report(pipe, compare(want, r, c.Output, skipRoot, sha256d, optSkip), refKeys)
 	return o
 }
 
@@ -896,7 +925,7 @@ var spec = &hx.Spec[Case]{
 		"oracle: plain-syscall snapshot (lstat, readlink, llistxattr/lgetxattr, rdev, content) of the destination equals the snapshot of the source on path set, type, mode & 07777, uid, gid, symlink target, xattrs, device numbers, content, mtime (ns); atime/ctime are not compared",
 		"the source snapshot, not the generated description, is the reference (the kernel clamps time stamps to the ext4 range)",
 		"the desync binary ($VERIF_DESYNC_BIN, one case in 8 quick / 6 thorough plus a grid in TestEnum): `[--digest sha256] tar [--input-format tar [--tar-add-root]] [-i -s store -m k:k:k]` then `untar [-i -s store] [--output-format gnu-tar]` or `mtree [-i -s store]` with the same digest; a catar written by the binary must equal desync.Tar's, a caidx is parsed with the independent parser (internal/ref): SHA512-256 flag iff default digest, table tiles the archive, every ID is the configured digest (crypto/sha256, crypto/sha512 directly) of its range",
-		"LocalFS is used with zero LocalFSOptions (owner, xattrs and permissions of the archive are applied); the harness runs as root",
+		"LocalFS is used with zero LocalFSOptions (owner, xattrs and permissions of the archive are applied) in 9 of 16 localfs cases; NoSameOwner and NoSamePermissions (--no-same-owner, --no-same-permissions) are drawn at 1/4 each: under the first uid, gid and xattrs are not compared, under the second the mode bits are not compared, every other field is; the harness runs as root",
 		"about one node in 25 has an mtime of exactly the epoch (desync documents 0 as 'no time'): the mtime of such a node itself is not compared (class mtime:epoch-node-skipped), every other field of it and the mtime of every other node, its ancestors included, is; a gnu tar input whose floor(mtime) is the epoch although the source's is not is written with mtime 1 s",
 		"gnu-tar output: compared on path, type, mode & 07777, uid, gid, size and content, floor(mtime) in seconds, link target, device numbers (xattrs are not carried by the format)",
 		"mtree output: compared on path (after \\ooo decoding), type, mode & 07777, uid, gid, size, content digest under the active algorithm, mtime as <seconds>.<9 digits>, link target (link= or target=); device numbers and xattrs are not printed and not compared",
@@ -905,7 +934,7 @@ var spec = &hx.Spec[Case]{
 		"fifos and sockets are not generated (desync documents skipping them; C13 covers that)",
 	},
 	Required: []string{"empty-directory", "empty-file", "file>max-chunk", "name:byte>=0x80", "sha256", "pipeline:catar", "pipeline:index", "pipeline:tarin-catar", "pipeline:tarin-addroot-catar",
-		"output:localfs", "output:gnutar", "output:mtree", "kind:symlink", "kind:chr", "kind:blk", "xattrs", "setid-or-sticky", "non-root-owner", "index:chunks>=2", "store:local", "store:mem",
+		"output:localfs", "output:gnutar", "output:mtree", "untar:no-same-owner", "untar:no-same-owner:symlink", "untar:no-same-permissions", "kind:symlink", "kind:chr", "kind:blk", "xattrs", "setid-or-sticky", "non-root-owner", "index:chunks>=2", "store:local", "store:mem",
 		"mtime:epoch-node-skipped", "mtime:epoch:dir", "mtime:epoch:file", "mtime:epoch:symlink", "mtime:epoch:chr", "mtime:epoch:blk", "shape:epoch-dir-then-sibling",
 		// the binary, both digests on both commands of the round trip (the driver builds it: need_bin)
 		"cli:digest:sha256:tar", "cli:digest:sha256:tar-i", "cli:digest:sha256:untar", "cli:digest:sha256:untar-i",
